@@ -20,8 +20,13 @@
      - the keystore manager's table (managedKeystores / AddrManager.addrs): written INSIDE the
        closure by ImportKeystore*, NewKeystore (added), NextAddresses -> updateManagedAddress
        (address added), DeleteKeystore (dropped): [Mem] nodes, with the repairs of wallet.go
-       (RemoveCachedKeystore) and wallet.go NewAddress / ntfnshandler.go asyncRemove
-       (UpdateManagedKeystores: a READ of the store that can fail) as [undo];
+       (RemoveCachedKeystore) and of wallet.go NewAddress / ntfnshandler.go asyncRemove as [undo].
+       The last two have a switch, Import.f_keystore_undo: true = the code as it stands (96d76da):
+       ForgetAddresses takes the addresses NextAddresses had added out of the table again,
+       RestoreCachedKeystore puts the keystore DeleteKeystore had dropped back — no database access,
+       nothing that can fail; false = the code before (f6a5978 / 33294fa): RemoveCachedKeystore and
+       UpdateManagedKeystores inside a View, a READ of the store that can fail itself (the flag of
+       [undo]), leaving the keystore out of the table;
      - the two volatile fields of Import.xstate (x_p1: the removal task is past phase 1, x_dead: import
        tasks dropped, as found only) change only together with a successful commit and stay inside
        the store component here. *)
@@ -248,7 +253,8 @@ Definition import_prog (B : Z) (w : N) : iprog :=
              let best := snd a in
              let stop := Z.min (k + B) best in
              import_blocks_prog w k stop
-               (Write IRetry (fun t => inr (with_status t (setN (x_status t) w
+               (Write IRetry (fun t => if f_import_tipcheck fx && negb (node_on_synced n (x_w t) stop) then inl IRetry else
+                                       inr (with_status t (setN (x_status t) w
                                               (if stop =? best then WReady else WImporting stop)))) iX0
                   (Ret IOk)) n
        | _ => Ret IOk
@@ -298,12 +304,23 @@ Definition new_address_prog (sh w : N) : uprog :=
             (* utxoStore.PutNewAddress *)
             (Write tt (fun t => inr t) tt (Ret tt)))).
 
-(* the repair (f6a5978): RemoveCachedKeystore, then UpdateManagedKeystores inside a read transaction
-   whose failure is not looked at *)
+(* ForgetAddresses(issued): the addresses NextAddresses has added are taken out of the table again.  The Go
+   variable [issued] is set exactly when NextAddresses has returned, i.e. when the [Mem] node above has
+   run; the repair of the model sees only the memory the attempt leaves, so "issued is set" is read off
+   it: the table is longer than the committed store's table (which a failed attempt has not changed and
+   which was the table before the attempt).  The comparison is a device of the model: the code touches
+   no database here *)
+Definition forget_last (s : xstate) (m : kcache) : kcache :=
+  if (length (x_keys s) <? length m)%nat then removelast m else m.
+
+(* the repair.  As the code stands (96d76da, f_keystore_undo = true): ForgetAddresses, whatever the
+   storage does (the flag is not looked at).  Before (f6a5978): RemoveCachedKeystore, then
+   UpdateManagedKeystores inside a read transaction whose failure is not looked at *)
 Definition new_address_op (sh w : N) : oper xstate kcache unit unit unit :=
   {| body := new_address_prog sh w;
      post := fun _ m => m;
-     undo := fun u s m => if u then drop_wallet w m else reload_wallet s w (drop_wallet w m) |}.
+     undo := fun u s m => if f_keystore_undo fx then forget_last s m
+                          else if u then drop_wallet w m else reload_wallet s w (drop_wallet w m) |}.
 
 (* ---- 3e. RemoveWallet -> OnRemoveWallet *)
 Definition rX := (option N * option wst)%type.
@@ -384,11 +401,16 @@ Definition round_prog (cap : Z) (lookup : N -> option tx) (w : N) : prog xstate 
                  else Ret false))
        else Ret false).
 
-(* the repair (33294fa): UpdateManagedKeystores inside a read transaction whose failure is not looked at *)
+(* the repair.  As the code stands (96d76da, f_keystore_undo = true): RestoreCachedKeystore(am) puts the
+   AddrManager the worker holds back into the table when DeleteKeystore has dropped it — the entries of w
+   as they were before the attempt (= the committed store's, which [reload_wallet] reads them from: again a
+   device of the model, no database access in the code), whatever the storage does.  Before (33294fa):
+   UpdateManagedKeystores inside a read transaction whose failure is not looked at *)
 Definition round_op (cap : Z) (lookup : N -> option tx) (w : N) : oper xstate kcache dX bool unit :=
   {| body := round_prog cap lookup w;
      post := fun _ m => m;
-     undo := fun u s m => if u then m else reload_wallet s w m |}.
+     undo := fun u s m => if f_keystore_undo fx then reload_wallet s w m
+                          else if u then m else reload_wallet s w m |}.
 
 End WalletOps.
 
@@ -419,7 +441,7 @@ Definition xstep_f (fx : fixes) (p : params) (B cap : Z) (sm : xsim * kcache) (e
   | XNewWallet w pass =>
       let '(st', m', _) := retry tt (import_start_op w pass []) fs st m in (with_st s st', m')
   | XNewAddr sh w =>
-      let '(st', m', _) := retry tt (new_address_op sh w) fs st m in (with_st s st', m')
+      let '(st', m', _) := retry tt (new_address_op fx sh w) fs st m in (with_st s st', m')
   | XImportStart w pass shs =>
       let '(st', m', _) := retry tt (import_start_op w pass shs) fs st m in (with_st s st', m')
   | XBatch w =>
@@ -435,8 +457,9 @@ Definition xstep_f (fx : fixes) (p : params) (B cap : Z) (sm : xsim * kcache) (e
 Definition xrun_f (fx : fixes) (p : params) (B cap : Z) (n : node) (h : list (xevent * list fault)) : xsim * kcache :=
   fold_left (xstep_f fx p B cap) h (xinit_sim n, x_keys (xinit n)).
 
-(* no reload of the keystore table fails itself: the two operations whose repair reads the store
-   (NewAddress, a removal round) have no fault with the flag; the faults of the others are arbitrary *)
+(* (the code before 96d76da, f_keystore_undo = false) no reload of the keystore table fails itself: the two
+   operations whose repair read the store (NewAddress, a removal round) have no fault with the flag; the
+   faults of the others are arbitrary *)
 Definition reload_works (ev : xevent * list fault) : Prop :=
   match fst ev with
   | XNewAddr _ _ | XRound _ => Forall (fun f => fundo f = false) (snd ev)
